@@ -317,7 +317,8 @@ builtin_random(spif_charptr_t param)
         srand(rseed);
     }
     n = spiftool_num_words(param);
-    index = (int) (n * ((float) rand()) / (RAND_MAX + 1.0)) + 1;
+    /* In double precision:  as a float, a rand() result near RAND_MAX rounds up to RAND_MAX + 1 and selects word n + 1. */
+    index = (unsigned long) (n * ((double) rand() / (RAND_MAX + 1.0))) + 1;
     D_PARSE(("random index == %lu\n", index));
 
     return (spiftool_get_word(index, param));
